@@ -192,6 +192,43 @@ class Ctx:
                 "inconclusive": self.inconcl, "cases_run": self.cases_run}
 
 
+def run_repo_tests_under_monitors(ctx, paths, prefix, workers=1, timeout=1500, only=None):
+    """Run some of the repository's own tests with the class-level monitors of vlib.livemon switched on and feed what the monitors
+    observed into ctx (the tests' own pass/fail is ignored).  `only`: keep monitors whose name starts with one of these prefixes."""
+    import tempfile
+    from vlib import livemon
+    fd, out = tempfile.mkstemp(prefix="livemon_", suffix=".jsonl", dir=OUT)
+    os.close(fd)
+    env = dict(os.environ)
+    env["PYTHONPATH"] = REPO + os.pathsep + VERIF
+    env["VERIF_LIVEMON_OUT"] = out
+    env.setdefault("OMP_NUM_THREADS", "1")
+    cmd = [PY, "-m", "pytest", "-q", "-p", "no:cacheprovider", "-p", "vlib.pytest_livemon", "--timeout=600"] + (["-n", str(workers)] if workers > 1 else []) + list(paths)
+    try:
+        subprocess.run(cmd, cwd=REPO, env=env, stdout=subprocess.DEVNULL, stderr=subprocess.DEVNULL, timeout=timeout)
+    except subprocess.TimeoutExpired:
+        ctx.inconclusive(f"repository tests under monitors timed out after {timeout}s: {paths}")
+    counts, viol = livemon.read_results(out)
+    try:
+        os.remove(out)
+    except OSError:
+        pass
+    total = 0
+    for name, n in counts.items():
+        if only and not any(name.startswith(o) for o in only):
+            continue
+        ctx.ev(prefix + name, n)
+        total += n
+    for v in viol:
+        name = v.get("monitor", "?")
+        if only and not any(name.startswith(o) for o in only):
+            continue
+        ctx.violation(prefix + name, f"class-level monitor '{name}' fired while the repository's own tests were running", v)
+    ctx.ev(prefix + "observations_total", 0)
+    ctx.monitors[prefix + "observations_total"] = ctx.monitors.get(prefix + "observations_total", 0) + total
+    return total
+
+
 def tangelo_in_traceback(tb):
     for fr in traceback.extract_tb(tb):
         if "/tangelo/" in fr.filename and "/verif/" not in fr.filename:
